@@ -76,6 +76,7 @@ def check(model, rep, tier):
               {'formula': str(v.f) if isinstance(v, setalg.SetV) else repr(v),
                'counterexample': cex}, line=m.node.lineno,
               witness='a join that loses the symbols of one operand')
+  rules_df.check_value_type(rep, 'RD-STATE', ns)
   orm = ns.methods['__or__']
   rep.check(pat.has(orm.node, '_R_.value[_S_].update(_O_)') and
             pat.has(orm.node, '_R_.value[_S_] = set(_O_)'), 'RD-STATE',
@@ -191,3 +192,12 @@ def check(model, rep, tier):
             line=fi.node.lineno)
 
   _c05.asdl_rule(model, rep, 'RD-ASDL', [RD])
+
+  # ---------------------------------------------------------------- dependencies
+  rep.depends('C05', ['CFG-STMT', 'CFG-PAIR', 'CFG-TRY', 'CFG-SCOPE', 'CFG-KEYED', 'CFG-JUMP', 'CFG-LEAVES'],
+              'reaching definitions are propagated along the edges of this graph: '
+              'a missing edge loses the definitions that travel over it')
+  rep.depends('C08', ['ACT-TRAV', 'PARAMS'],
+              'definitions are generated from the modified / bound / parameter '
+              'sets of the activity analysis: a store it does not visit (walrus '
+              'targets can sit in any expression field) generates no definition')
